@@ -58,6 +58,7 @@ REV=[
  ("required arrays and maps read back from proto as not required",["C04"],"R-PROV/required"),
  ("entities whose name ends in a capital letter were rejected",["C07"],"R-PROV/entityname"),
  ("boolean fields could not be supplied as URL query parameters",["C03"],"R-FLOW/kinds"),
+ ("id62.Parse accepted negative numbers",["C20"],"R-FLOW/sign"),
 ]
 n=0
 for sub,props,expect in REV:
